@@ -8,7 +8,7 @@ ALGOS = ["ff", "ffd", "bf", "bfd", "bc"]
 RULE = ("bounded-exhaustive: every item list of length 1..4 over {0,1,2,3,5} with bin size in {5,6} (rotating subset in the quick tier) "
         "x 5 packers; structured random packing instances (thresholds C/2, C/3 +-1, exact fills, zeros, perfect packings) with n <= 9 "
         "(bin completion n <= 8), formats list/array/dict/names+valueof (all packers), "
-        "dyadic fractions v/2^j for the fit heuristics, output types pst/sums/bincount/partition. Non-trivial: >= 3 items and the "
+        "a dense stream of repeated-value inputs for bin completion (12 000 quick / 120 000 thorough), dyadic fractions v/2^j for the fit heuristics, output types pst/sums/bincount/partition. Non-trivial: >= 3 items and the "
         "implementation returns >= 2 bins. Distinct by (port, params).")
 EXPLANATION = ("prtpy.pack outputs compared with the Gallina model (canonical form: multiset of (sum, multiset of values)) and judged by the "
                "verified checkers is_packing_b / nonempty_b; theorems C03_* prove the predicate for the model for all inputs.")
@@ -40,6 +40,13 @@ def units(rng, tier):
         C, vals, fam = gen.packing_instance(rng, nmax=8)
         for a in ("ff", "ffd", "bf", "bfd"):
             us.append(pack_unit(a, C, vals, rng, fmt=rng.choice(["list", "dict_str"]), out="pst", family="dyadic/" + fam, scale=2 ** rng.randint(1, 6)))
+    # bin completion's search only runs when best-fit-decreasing misses the volume bound, and its branch bookkeeping only matters
+    # with repeated values: a dense stream of exactly such inputs (few distinct values, 5..9 items)
+    for _ in range(12000 if tier == "quick" else 120000):
+        C = rng.choice([10, 12, 20, 30])
+        pool = [rng.randint(1, C) for _ in range(rng.randint(2, 5))]
+        vals = [rng.choice(pool) for _ in range(rng.randint(5, 9))]
+        us.append(pack_unit("bc", C, vals, family="bc-repeated-values"))
     # larger inputs (model handles hundreds of items)
     for _ in range(12 if tier == "quick" else 120):
         C = rng.choice([100, 1000])
